@@ -163,6 +163,13 @@ func mapStructFieldsIntoSlice(v reflect.Value, columns []string, strict bool) ([
 	values := make([]any, len(columns))
 	if len(taggedMap) == 0 {
 		for i := 0; i < len(values); i++ {
+			// 列比字段多：多出的列读出后丢弃（与带标签时未映射的列一致），而不是越界 panic
+			if i >= len(fields) {
+				var anonymous any
+				values[i] = &anonymous
+				continue
+			}
+
 			valueField := fields[i]
 			switch valueField.Kind() {
 			case reflect.Ptr:
